@@ -1,6 +1,8 @@
 package rules
 
 import (
+	"fmt"
+	"os"
 	"go/token"
 	"go/types"
 	"strings"
@@ -264,6 +266,21 @@ func checkC03(c *km.Ctx) {
 		cap24 := st.All(func(k km.Conj) bool { x, _, _ := bounds(k, h, dur, 0); return x })
 		capAge := st.All(func(k km.Conj) bool { _, y, _ := bounds(k, h, dur, 0); return y })
 		nonNeg := st.All(func(k km.Conj) bool { _, _, z := bounds(k, h, dur, 0); return z })
+		// the clamps may live in helpers (a policy value with methods): the interprocedural argument
+		via := func(kind durKind) bool {
+			return len(st) > 0 && st.All(func(k km.Conj) bool {
+				return durHolds(c, s, &durFrame{fn: h, k: s.Augment(k)}, dur, kind, 0, map[ssa.Value]bool{})
+			})
+		}
+		if !cap24 {
+			cap24 = via(durLE24)
+		}
+		if !capAge {
+			capAge = via(durLEAge)
+		}
+		if !nonNeg {
+			nonNeg = via(durGE0)
+		}
 		r.Add("R-C03-1", km.FuncName(h), "duration <= 24h at "+km.NameOf(callee), posOf(c, ci), "duration <= maxCertificateLifetime (24 h) on every path", sprintf("%v", cap24), cap24)
 		r.Add("R-C03-1", km.FuncName(h), "duration <= remaining session age at "+km.NameOf(callee), posOf(c, ci), "duration <= time.Until(authInfo.IssuedAt + 24 h) on every path", sprintf("%v", capAge), capAge)
 		r.Add("R-C03-1", km.FuncName(h), "duration >= 0 at "+km.NameOf(callee), posOf(c, ci), "duration >= 0 on every path", sprintf("%v", nonNeg), nonNeg)
@@ -640,4 +657,273 @@ func paramNonNegAtCallers(c *km.Ctx, s *km.Sem, fn *ssa.Function, p *ssa.Paramet
 		}
 	}
 	return true
+}
+
+// ---- an interprocedural upper-/lower-bound argument for durations, used when the comparison-fact prover of the
+// handler's own frame is not enough because the clamps live in helpers (a policy value with methods, a limit()
+// function): "v <= 24 h", "v <= time.Until(session issued + K)" and "v >= 0" are proven by following v through
+// merges (edge by edge), comparison facts, min/max, helper results (every return, in the helper's frame) and
+// helper parameters (back in the caller's frame with the caller's facts).
+
+type durFrame struct {
+	fn     *ssa.Function
+	k      km.Conj
+	call   ssa.CallInstruction // the call that entered fn (nil for the root)
+	parent *durFrame
+}
+
+type durKind int
+
+const (
+	durLE24 durKind = iota
+	durLEAge
+	durGE0
+)
+
+func (fr *durFrame) env() map[*ssa.Parameter]*km.Sym {
+	if fr == nil || fr.call == nil || fr.parent == nil {
+		return nil
+	}
+	out := map[*ssa.Parameter]*km.Sym{}
+	args := km.CallArgs(fr.call.Common())
+	penv := fr.parent.env()
+	for i, p := range fr.fn.Params {
+		if i < len(args) {
+			out[p] = km.SymOfEnv(args[i], penv)
+		}
+	}
+	return out
+}
+
+// isSessionAgeSym: time.Until(<authenticated session>.IssuedAt + K) with 0 < K <= 24 h.
+func isSessionAgeSym(s *km.Sem, sy *km.Sym) bool {
+	a, ok := sy.IsCall("time.Until")
+	if !ok || len(a) != 1 {
+		return false
+	}
+	ad, ok := a[0].IsCall("(time.Time).Add")
+	if !ok || len(ad) != 2 {
+		return false
+	}
+	k, isC := ad[1].ConstInt()
+	if !isC || k <= 0 || k > day {
+		return false
+	}
+	is := ad[0]
+	if is.Op == "field" && is.Name == "IssuedAt" && is.Args[0] != nil && is.Args[0].Op == "val" {
+		if os.Getenv("KMCHECK_TRACE_DUR") != "" {
+			fmt.Fprintf(os.Stderr, "   age: base=%s (%T) role=%v\n", km.ValStr(is.Args[0].Val), is.Args[0].Val, s.Is(is.Args[0].Val, km.RoleAuthInfo))
+		}
+		return s.Is(is.Args[0].Val, km.RoleAuthInfo)
+	}
+	if is.Op == "val" {
+		base, fld, ok := km.FieldOfLoad(km.Unwrap(is.Val))
+		return ok && fld == "IssuedAt" && s.Is(base, km.RoleAuthInfo)
+	}
+	return false
+}
+
+func durHolds(c *km.Ctx, s *km.Sem, fr *durFrame, v ssa.Value, kind durKind, depth int, seen map[ssa.Value]bool) bool {
+	if depth > 10 {
+		return false
+	}
+	v = km.Unwrap(v)
+	if seen[v] {
+		return false
+	}
+	seen[v] = true
+	defer delete(seen, v)
+	// 1. the value itself, symbolically in the root's terms
+	sy := km.SymOfEnv(v, fr.env())
+	if os.Getenv("KMCHECK_TRACE_DUR") != "" {
+		fmt.Fprintf(os.Stderr, "%*sdur kind=%d fn=%s v=%s sym=%s facts=%s\n", depth*2, "", kind, fr.fn.Name(), km.ValStr(v), sy.String(), clipS(km.DNF{fr.k}.String(), 200))
+	}
+	switch kind {
+	case durLE24:
+		if k, ok := sy.ConstInt(); ok && k <= day {
+			return true
+		}
+	case durGE0:
+		if k, ok := sy.ConstInt(); ok && k >= 0 {
+			return true
+		}
+	case durLEAge:
+		if isSessionAgeSym(s, sy) {
+			return true
+		}
+	}
+	// 2. a parameter: what this frame's own comparisons say about it, then back in the caller with the caller's
+	// facts
+	if p, isP := v.(*ssa.Parameter); isP {
+		if durHoldsNoParamEscape(c, s, fr, p, kind, depth+1) {
+			return true
+		}
+		if fr.call == nil || fr.parent == nil {
+			return false
+		}
+		args := km.CallArgs(fr.call.Common())
+		for i, q := range fr.fn.Params {
+			if q == p && i < len(args) {
+				return durHolds(c, s, fr.parent, args[i], kind, depth+1, map[ssa.Value]bool{})
+			}
+		}
+		return false
+	}
+	// 3. min / max
+	if cl, ok := v.(*ssa.Call); ok {
+		if b, isB := cl.Common().Value.(*ssa.Builtin); isB && (b.Name() == "min" || b.Name() == "max") {
+			all, any := len(cl.Common().Args) > 0, false
+			for _, a := range cl.Common().Args {
+				if durHolds(c, s, fr, a, kind, depth+1, seen) {
+					any = true
+				} else {
+					all = false
+				}
+			}
+			upper := kind != durGE0
+			if (b.Name() == "min") == upper {
+				if any {
+					return true
+				}
+			} else if all {
+				return true
+			}
+		}
+	}
+	// 4. comparison facts of this frame
+	for _, f := range fr.k.List() {
+		var w ssa.Value
+		le := f.Op == token.LEQ || f.Op == token.LSS || f.Op == token.EQL
+		ge := f.Op == token.GEQ || f.Op == token.GTR || f.Op == token.EQL
+		if kind == durGE0 {
+			le, ge = ge, le
+		}
+		switch {
+		case le && f.Y != nil && km.Unwrap(f.X) == v:
+			w = f.Y
+		case ge && f.Y != nil && km.Unwrap(f.Y) == v:
+			w = f.X
+		default:
+			continue
+		}
+		if durHolds(c, s, fr, w, kind, depth+1, seen) {
+			return true
+		}
+	}
+	// a boolean helper that compared the value for us: !tooLong(v) etc. (facts inside the helper's true/false returns)
+	for _, f := range fr.k.List() {
+		cl, idx := callRes(f.X)
+		if cl == nil || idx != 0 || f.Op != token.ILLEGAL {
+			continue
+		}
+		g := km.StaticCallee(cl.Common())
+		if g == nil || g.Blocks == nil || !c.InModule(g) {
+			continue
+		}
+		args := km.CallArgs(cl.Common())
+		pi := -1
+		for i, a := range args {
+			if km.Unwrap(a) == v && i < len(g.Params) {
+				pi = i
+			}
+		}
+		if pi < 0 {
+			continue
+		}
+		okAll, nRet := true, 0
+		for _, rc := range s.RetCases(g) {
+			for _, d := range rc.State {
+				kk, may := s.TrueFacts(d, km.Unwrap(rc.Results[0]))
+				if f.Pol != may {
+					// this return cannot have produced the verdict the caller saw... unless the result is not constant
+					if _, isC := km.Unwrap(rc.Results[0]).(*ssa.Const); isC {
+						continue
+					}
+				}
+				if !f.Pol {
+					// the caller saw false: the facts of the false outcome
+					kk = d
+					for _, nf := range c.F.CondFacts(km.Unwrap(rc.Results[0]), false) {
+						kk = kk.With(nf)
+					}
+				}
+				nRet++
+				inner := &durFrame{fn: g, k: kk, call: cl, parent: fr}
+				if !durHoldsNoParamEscape(c, s, inner, g.Params[pi], kind, depth+1) {
+					okAll = false
+				}
+			}
+		}
+		if okAll && nRet > 0 {
+			return true
+		}
+	}
+	// 5. the result of a helper: every return, in the helper's frame
+	if cl, idx := callRes(v); cl != nil {
+		g := km.StaticCallee(cl.Common())
+		if g != nil && g.Blocks != nil && c.InModule(g) && g != fr.fn {
+			okAll, n := true, 0
+			for _, rc := range s.RetCases(g) {
+				if idx >= len(rc.Results) {
+					return false
+				}
+				for _, d := range rc.State {
+					n++
+					inner := &durFrame{fn: g, k: d, call: cl, parent: fr}
+					if !durHolds(c, s, inner, rc.Results[idx], kind, depth+1, map[ssa.Value]bool{}) {
+						okAll = false
+					}
+				}
+			}
+			if okAll && n > 0 {
+				return true
+			}
+		}
+	}
+	// 6. a merge: every operand under the facts of its own edge
+	if phi, isPhi := v.(*ssa.Phi); isPhi {
+		okAll := len(phi.Edges) > 0
+		for i, e := range phi.Edges {
+			if i >= len(phi.Block().Preds) {
+				return false
+			}
+			est := c.F.OnEdge(phi.Block().Preds[i], phi.Block())
+			if len(est) == 0 {
+				continue // an edge that cannot be taken
+			}
+			for _, d := range est {
+				inner := &durFrame{fn: fr.fn, k: d, call: fr.call, parent: fr.parent}
+				if !durHolds(c, s, inner, e, kind, depth+1, seen) {
+					okAll = false
+				}
+			}
+		}
+		return okAll
+	}
+	return false
+}
+
+// durHoldsNoParamEscape: inside a predicate helper, the parameter is bounded by the helper's own facts (the
+// question is not handed back to the caller, which is asking it).
+func durHoldsNoParamEscape(c *km.Ctx, s *km.Sem, fr *durFrame, p *ssa.Parameter, kind durKind, depth int) bool {
+	for _, f := range fr.k.List() {
+		var w ssa.Value
+		le := f.Op == token.LEQ || f.Op == token.LSS || f.Op == token.EQL
+		ge := f.Op == token.GEQ || f.Op == token.GTR || f.Op == token.EQL
+		if kind == durGE0 {
+			le, ge = ge, le
+		}
+		switch {
+		case le && f.Y != nil && km.Unwrap(f.X) == ssa.Value(p):
+			w = f.Y
+		case ge && f.Y != nil && km.Unwrap(f.Y) == ssa.Value(p):
+			w = f.X
+		default:
+			continue
+		}
+		if durHolds(c, s, fr, w, kind, depth+1, map[ssa.Value]bool{ssa.Value(p): true}) {
+			return true
+		}
+	}
+	return false
 }
